@@ -198,7 +198,7 @@ fn bytes_case(hid: u64, i: u64, items: &[Item], confs: &[Conf]) -> Outcome {
             let fp = format!(
                 "codec={} flags={} stage={} symptom={} ref={} shape={}",
                 conf.codec(),
-                conf.flags(),
+                shape::flag_class(&conf),
                 f.stage,
                 f.symptom,
                 f.reference,
@@ -454,7 +454,19 @@ fn names_harness(ctx: &mut Ctx, name: &str, alpha: &[Vec<u8>], max_names: usize)
 
 // ---- main ----------------------------------------------------------------------------------------
 
+/// The codecs under test allocate and free 256 KiB - 1 MiB tables per call; with glibc's defaults
+/// every one of them is an mmap/munmap pair (page faults dominate the run). Keep them in the heap.
+fn tune_allocator() {
+    // SAFETY: mallopt only sets allocator parameters; called before any worker thread exists.
+    unsafe {
+        libc::mallopt(libc::M_MMAP_THRESHOLD, 1 << 30);
+        libc::mallopt(libc::M_TRIM_THRESHOLD, 1 << 30);
+        libc::mallopt(libc::M_TOP_PAD, 64 << 20);
+    }
+}
+
 fn main() {
+    tune_allocator();
     vmc::run("C08", "model_checking", |ctx| {
         guard::start_watchdog(Duration::from_secs(120));
         match grans::calib::run() {
@@ -516,10 +528,14 @@ fn main() {
         bytes_harness(ctx, "bytes_len", &big, &rans);
         bytes_harness(ctx, "gp_len", &big, &gp);
         if quick {
-            // 65535..65537 in the quick tier: a third of the families (every third one)
+            // 65535..65537 in the quick tier: ten of the families (all of them in the thorough tier)
+            const QUICK_64K: &[&str] = &[
+                "one(0)", "alt(0,255)", "cycle256", "skew(65,66)", "runs-inc", "runs255", "two-singletons", "pack16",
+                "pack17", "mix256",
+            ];
             let mut big2 = Vec::new();
             for l in [65535usize, 65536, 65537] {
-                for f in corpus::FAMILIES.iter().step_by(3) {
+                for f in corpus::FAMILIES.iter().filter(|f| QUICK_64K.contains(&f.name)) {
                     big2.push(corpus::family_item(f, l));
                 }
             }
@@ -532,12 +548,17 @@ fn main() {
             vec![129, 129], vec![128, 129], vec![129, 128], vec![1025, 3], vec![3, 1025], vec![300, 300, 300],
             vec![65535], vec![65536], vec![65537], vec![65536, 1],
         ];
-        let fq = fqz_cases(ctx.by_tier(12, 22), ctx.by_tier(5, 8), &big_lens);
+        let fq = fqz_cases(ctx.by_tier(12, 20), ctx.by_tier(5, 8), &big_lens);
         fqz_harness(ctx, "fqzcomp", &fq);
 
         // (5) name tokenizer
-        let alpha = name_alphabet(!quick);
-        names_harness(ctx, "names", &alpha, ctx.by_tier(3, 4));
+        // lists of <= 3 names never give the tokenizer a token stream of >= 4 bytes to entropy-code
+        // (shorter ones are stored raw), so the quick tier goes to 4 names as well
+        let alpha = name_alphabet(false);
+        names_harness(ctx, "names", &alpha, ctx.by_tier(4, 5));
+        if !quick {
+            names_harness(ctx, "names_ext", &name_alphabet(true), 4);
+        }
 
         // (6) integers
         ints::run(ctx);
